@@ -685,7 +685,31 @@ fn modular(ctx: &mut Ctx, rng: &mut Rng, k: usize) {
             a[r][j] *= BIG_PRIME;
         }
     }
-    let b: Vec<Vec<i64>> = (0..n).map(|_| (0..bc).map(|_| if rng.chance(1, 8) { 0 } else { rng.range(-mag, mag) }).collect()).collect();
+    let mut b: Vec<Vec<i64>> = (0..n).map(|_| (0..bc).map(|_| if rng.chance(1, 8) { 0 } else { rng.range(-mag, mag) }).collect()).collect();
+    if style == 2 || style == 3 {
+        // solutions whose p-adic expansion has vanishing digits: A unimodular (or with determinant p + 1),
+        // right-hand side a multiple of the prime
+        a = (0..n).map(|i| (0..n).map(|j| if i == j { 1 } else { 0 }).collect()).collect();
+        for _ in 0..(2 * n) {
+            let (i, j) = (rng.below(n), rng.below(n));
+            if i != j {
+                let f = rng.range(-2, 2);
+                for c in 0..n {
+                    a[i][c] += f * a[j][c];
+                }
+            }
+        }
+        if style == 3 {
+            let r = rng.below(n);
+            for c in 0..n {
+                a[r][c] *= if rng.chance(1, 2) { BIG_PRIME + 1 } else { BIG_PRIME - 1 };
+            }
+            b = (0..n).map(|_| (0..bc).map(|_| rng.range(-3, 3)).collect()).collect();
+        } else {
+            b = (0..n).map(|_| (0..bc).map(|_| BIG_PRIME * rng.range(-1000, 1000) * if rng.chance(1, 3) { 1_000_000 } else { 1 }).collect()).collect();
+        }
+        ctx.count("modsolve.vanishing_digit_family");
+    }
     let input = || json!({"a": a.iter().map(|r| r.iter().map(|x| x.to_string()).collect::<Vec<_>>()).collect::<Vec<_>>(), "b": b.iter().map(|r| r.iter().map(|x| x.to_string()).collect::<Vec<_>>()).collect::<Vec<_>>()});
     let am: VecMatrix<i64> = to_vm(&a, n);
     let bm: VecMatrix<i64> = to_vm(&b, bc);
@@ -930,6 +954,7 @@ pub fn run(cfg: &Cfg) -> Report {
     report.require_counter("systems.inconsistent", 1000);
     report.require_counter("modsolve.some", (nmod / 4) as u64);
     report.require_counter("modsolve.singular_mod_p_only", 10);
+    report.require_counter("modsolve.vanishing_digit_family", 100);
     report.require_counter("periodic_graphs", (npg / 2) as u64);
     report.require_counter("cases.Matrix<BigRational,N,M>", 100);
     report.require_counter("cases.Matrix<i64,N,M>", 100);
